@@ -321,6 +321,99 @@ def check_history(case):
     return out
 
 
+CG_MAPS = {"pairs": [0, 0, 1, 1], "identity": [0, 1, 2, 3], "one-group+rest": [0, 0, 1, -1]}
+CG_PREVS = [None, "cell-volume", "units", "environments", "dimensions", "map"]
+
+
+def _cg_spec(engine, seed=11):
+    """2x2x1 grid of two environments for the coarse-grained route (simulate_script with an index map)."""
+    sc = _script_spec(engine, "grid", "on_t_sample", 4, seed)
+    sy = sc["system"]
+    sy["envs"] = ["a", "b"]
+    sy["space"] = {"type": "grid", "w": 2, "h": 2, "d": 1, "vol": 1.0, "env": [0, 0, 1, 1]}
+    if engine == "gillespie":
+        sy["state"] = [3.0, 2.0, 1.0, 4.0, 0.0, 1.0, 0.0, 2.0]
+    else:
+        sy["state"] = [9.0, 4.0, 6.0, 8.0, 1.0, 0.0, 3.0, 5.0]
+    return sc
+
+
+def cg_baseline(sc_json, engine, cgmap_json):
+    """Runs in a pristine process: the coarse-grained route once, output bytes."""
+    import json
+    from strengths.simulate import simulate_script
+    script = models.build_script(json.loads(sc_json))
+    o = simulate_script(script, eng.make_engine(engine), cgmap=json.loads(cgmap_json))
+    return (o.t.value.tobytes(), o.data.value.tobytes())
+
+
+def cg_history_run(sc_json, engine, cgmap_json, prev, mapname):
+    """Runs in a pristine process (module-level state of the library untouched): the previous coarse-grained run, then the
+    run under test twice; returns the two outputs."""
+    import json
+    from strengths.simulate import simulate_script
+    sc = json.loads(sc_json)
+    cgmap = json.loads(cgmap_json)
+    if prev is not None:
+        psc = _cg_spec(engine, seed=5)
+        pmap = cgmap
+        if prev == "cell-volume":
+            psc["system"]["space"]["vol"] = 27.0
+        elif prev == "units":
+            psc["system"]["units"] = ["nm", "ms", "molecule"]
+        elif prev == "environments":
+            psc["system"]["space"]["env"] = [0, 0, 0, 0] if mapname != "identity" else [1, 0, 0, 1]
+        elif prev == "dimensions":
+            psc["system"]["space"].update({"w": 4, "h": 1})
+        elif prev == "map":
+            pmap = [0, 1, 2, 3] if mapname != "identity" else [0, 0, 1, 1]
+        simulate_script(models.build_script(psc), eng.make_engine(engine), cgmap=list(pmap))
+    res = []
+    for rep in range(2):
+        o = simulate_script(models.build_script(sc), eng.make_engine(engine), cgmap=list(cgmap))
+        res.append((o.t.value.tobytes(), o.data.value.tobytes()))
+    return res
+
+
+def check_cg_history(case):
+    """Coarse-grained runs: the same (script, index map) after an earlier coarse-grained run of a neighbouring description
+    (same grid dimensions and map, another cell volume / units system / environment map / grid dimensions / index map).
+    Each history runs in its own pristine process, so that it is the first user of whatever the library keeps at module
+    level."""
+    import json
+    import os
+    out = []
+    engine = case["engine"]
+    cgmap = CG_MAPS[case["map"]]
+    sc = _cg_spec(engine)
+    try:
+        z = _PRIS.get(os.getpid())
+        if z is None:
+            _PRIS.clear()
+            z = pristine.Pristine()
+            _PRIS[os.getpid()] = z
+        key = ("cg", json.dumps(sc, sort_keys=True), engine, json.dumps(cgmap))
+        if key not in _BASE:
+            _BASE[key] = z.call("checks.c08_purity", "cg_baseline", key[1], engine, key[3])
+        base = _BASE[key]
+        if base[0] != "ok":
+            return [("C08:baseline:%s" % base[0], str(base[1]))]
+        bt, bd = base[1]
+        prev = case.get("prev")
+        got = z.call("checks.c08_purity", "cg_history_run", key[1], engine, key[3], prev, case["map"])
+        if got[0] != "ok":
+            return [("C08:cg-history:%s:%s" % (engine, got[0]), str(got[1])[-800:])]
+        for rep, (t, d) in enumerate(got[1]):
+            if (t, d) != (bt, bd):
+                out.append(("C08:cg-history:%s:trajectory-differs-from-baseline" % engine,
+                            "coarse-grained run (map %r) after a coarse-grained run differing in %r, repetition %d: trajectory "
+                            "differs from the pristine-process baseline" % (cgmap, prev, rep)))
+                break
+    except Exception as ex:
+        out.append(("C08:cg-history:unexpected-exception", "%s: %s" % (type(ex).__name__, ex)))
+    return out
+
+
 def check_seed(case):
     out = []
     engine, gtype, policy = case["engine"], case["gtype"], case["policy"]
@@ -569,6 +662,8 @@ def check_case(case):
         return check_wrapper(case)
     if case["sub"] == "edited":
         return check_edited(case)
+    if case["sub"] == "cg-history":
+        return check_cg_history(case)
     return check_seed(case)
 
 
@@ -698,6 +793,8 @@ def gen_cases(tier, seed0):
             wrap.append({"sub": "wrapper", "engine": e, "gtype": g, "policy": "on_t_sample", "units": ["µm", "s", "molecule"], "order": 1, "after": after,
                          "isp": None})
     cases += wrap
+    cgh = [{"sub": "cg-history", "engine": e, "map": m, "prev": pv} for e in ("euler", "tauleap", "gillespie") for m in CG_MAPS for pv in CG_PREVS]
+    cases += cgh
     sizes = [("driver schedules: all %d ways to consume a %d-iteration run with iterate / iterate_n(1..3) / run(0) / clock-scripted "
               "run slices of 1..3 iterations / run-to-completion x %d scripts (engines x space types x policies)" % (nsch, n, len(scripts)),
               nsch * len(scripts)),
@@ -713,7 +810,10 @@ def gen_cases(tier, seed0):
               "{the caller's script, the stored script} after the run: the other one still reproduces the trajectory", len(stored)),
              ("scripts edited in place before the run (cell / node volume, edge surface and distance, D, kf) vs the same script written directly: 6 kinds", len(edited)),
              ("simulate() wrapper: 6 kinds x 3 policies x 3 units systems x 3 keyword orders (bare numbers): same trajectory as "
-              "simulate_script(RDScript(same arguments))", len(wrap))]
+              "simulate_script(RDScript(same arguments))", len(wrap)),
+             ("coarse-grained route histories: 3 engines x 3 index maps (pairs / identity / one group + unmapped cell) on a 2x2x1 grid x "
+              "(no previous run | previous coarse-grained run with another cell volume / units system / environment map / grid "
+              "dimensions / index map), 2 repetitions: same trajectory as in a pristine process", len(cgh))]
     return cases, sizes
 
 
